@@ -32,7 +32,7 @@ func Harness_C17_builtin() {
 	} else {
 		max := 5
 		if thorough() {
-			max = 7
+			max = 16
 		}
 		name = nondetString("name", max)
 	}
